@@ -798,3 +798,202 @@ func (e *c05Env) routeFifoClean(tree *c05Node, srcDir string, src []*c05Ent, cat
 		e.r.Fail("predicate", "tar/fifo-leaves-traces", "the archive of a tree with fifos differs from the archive of the same tree without them: "+c.Detail, c)
 	}
 }
+
+// ---------- tar streams that are not grouped by directory ----------
+//
+// Judged on the implementation alone: every member of the input stream (read here with archive/tar,
+// independently of desync) must be in what `desync tar --input-format tar` + `desync untar` produce.
+// A refusal (non-zero exit of desync tar) of an ungrouped stream is tolerated: loud, nothing lost silently.
+
+type tarMember struct {
+	name string // as in the header
+	dir  bool
+	data string
+}
+
+func buildTarSpec(ms []tarMember) []byte {
+	var buf bytes.Buffer
+	w := gnutar.NewWriter(&buf)
+	for _, m := range ms {
+		h := &gnutar.Header{Name: m.name, Mode: 0644, ModTime: time.Unix(1000000000, 0), Format: gnutar.FormatPAX}
+		if m.dir {
+			h.Typeflag, h.Mode = gnutar.TypeDir, 0755
+		} else {
+			h.Typeflag, h.Size = gnutar.TypeReg, int64(len(m.data))
+		}
+		w.WriteHeader(h)
+		if !m.dir {
+			w.Write([]byte(m.data))
+		}
+	}
+	w.Close()
+	return buf.Bytes()
+}
+
+// tarGrouped says whether a depth-first reader finds every member inside the directory it is in or one of
+// its ancestors: the parent of each member is on the stack of open directories.
+func tarGrouped(names []string, isDir []bool) bool {
+	stack := []string{"."}
+	for i, n := range names {
+		rel := filepath.Clean(n)
+		if rel == "." {
+			if i != 0 {
+				return false
+			}
+			continue
+		}
+		parent := filepath.Dir(rel)
+		for len(stack) > 0 && stack[len(stack)-1] != parent {
+			stack = stack[:len(stack)-1]
+		}
+		if len(stack) == 0 {
+			return false
+		}
+		if isDir[i] {
+			stack = append(stack, rel)
+		}
+	}
+	return true
+}
+
+// tarMembersKept runs the stream through desync and reports the members that are not in the result.
+func (e *c05Env) tarMembersKept(c *c05Case, tb []byte, extra ...string) {
+	// the members, read independently
+	type mem struct {
+		rel  string
+		kind byte
+		sum  [32]byte
+	}
+	var ms []mem
+	var names []string
+	var dirs []bool
+	r := gnutar.NewReader(bytes.NewReader(tb))
+	for {
+		h, err := r.Next()
+		if err != nil {
+			break
+		}
+		m := mem{rel: filepath.Clean(h.Name), kind: h.Typeflag}
+		if h.Typeflag == gnutar.TypeReg {
+			b, _ := io.ReadAll(r)
+			m.sum = sha256.Sum256(b)
+		}
+		names = append(names, h.Name)
+		dirs = append(dirs, h.Typeflag == gnutar.TypeDir)
+		if h.Typeflag != gnutar.TypeFifo {
+			ms = append(ms, m)
+		}
+	}
+	grouped := tarGrouped(names, dirs)
+	in := e.scratch("ung") + ".tar"
+	cat := e.scratch("ung") + ".catar"
+	dst := e.scratch("dstung")
+	defer os.Remove(in)
+	defer os.Remove(cat)
+	defer c05RemoveAll(dst)
+	os.WriteFile(in, tb, 0600)
+	e.r.Count(fmt.Sprintf("%s|%d|%x", c.Route, len(ms), vhHash(tb)), len(ms) > 1)
+	e.r.Dist(fmt.Sprintf("tar-members:grouped=%v", grouped))
+	args := append([]string{"tar", "--input-format", "tar"}, extra...)
+	if o, err := e.cli(120*time.Second, append(args, cat, in)...); err != nil {
+		if grouped {
+			c.Detail = short(o)
+			e.r.Fail("predicate", "tarin/error", "desync tar --input-format tar fails on a tar stream grouped by directory: "+short(o), c)
+		} else {
+			e.r.Dist("tar-members:ungrouped-refused")
+		}
+		return
+	}
+	if o, err := e.cli(120*time.Second, "untar", cat, dst); err != nil {
+		c.Detail = short(o)
+		e.r.Fail("predicate", "tarin/untar-error", "desync untar fails on the archive made from a tar stream: "+short(o), c)
+		return
+	}
+	var missing []string
+	for _, m := range ms {
+		p := filepath.Join(dst, m.rel)
+		fi, err := os.Lstat(p)
+		ok := err == nil
+		if ok {
+			switch m.kind {
+			case gnutar.TypeDir:
+				ok = fi.IsDir()
+			case gnutar.TypeReg:
+				b, rerr := os.ReadFile(p)
+				ok = rerr == nil && fi.Mode().IsRegular() && sha256.Sum256(b) == m.sum
+			case gnutar.TypeSymlink:
+				ok = fi.Mode()&os.ModeSymlink != 0
+			}
+		}
+		if !ok {
+			missing = append(missing, m.rel)
+		}
+	}
+	if len(missing) > 0 {
+		cl := "tarin/entries-dropped"
+		if !grouped {
+			cl = "tarin/ungrouped-entries-dropped"
+		}
+		show := missing
+		if len(show) > 8 {
+			show = show[:8]
+		}
+		c.Detail = fmt.Sprintf("members %q (%d of %d missing)", names, len(missing), len(ms))
+		if len(c.Detail) > 1500 {
+			c.Detail = c.Detail[:1500]
+		}
+		e.r.Fail("predicate", cl, fmt.Sprintf("desync tar --input-format tar exits 0 but %d of the %d members of the tar stream are not in the archive: %q", len(missing), len(ms), show), c)
+	}
+}
+
+// routeTarUngroupedFamily: a small fixed family of valid tar streams.
+func (e *c05Env) routeTarUngroupedFamily() {
+	d := func(n string) tarMember { return tarMember{name: n, dir: true} }
+	f := func(n string) tarMember { return tarMember{name: n, data: "content of " + n} }
+	fam := map[string][]tarMember{
+		// the minimal one: a member of d0 after a member of its parent
+		"minimal": {d("./"), d("./d0/"), f("./f1"), f("./d0/f0")},
+		// tar -r style appends to d0 between members of the root
+		"appended": {d("./"), d("./d0/"), f("./d0/f0"), f("./f1"), f("./f2"), f("./d0/f3"), f("./f4"), f("./f5"), f("./d0/f6"), f("./f7")},
+		// sorted by name: "d0.x" sorts between "d0" and "d0/f0"
+		"name-sorted": {d("./"), d("./d0/"), f("./d0.x"), f("./d0/f0"), f("./d1")},
+		// breadth first
+		"breadth-first": {d("./"), d("./a/"), d("./b/"), f("./f"), f("./a/x"), f("./b/y"), d("./a/sub/"), f("./a/sub/z")},
+		// controls, grouped: depth first in any sibling order
+		"depth-first-reversed": {d("./"), d("./b/"), f("./b/y"), d("./a/"), d("./a/sub/"), f("./a/sub/z"), f("./a/x"), f("./f")},
+		"depth-first": {d("./"), d("./a/"), d("./a/sub/"), f("./a/sub/z"), f("./a/x"), d("./b/"), f("./b/y"), f("./f")},
+	}
+	for _, name := range []string{"minimal", "appended", "name-sorted", "breadth-first", "depth-first-reversed", "depth-first"} {
+		c := &c05Case{Route: "tar-members-" + name, Digest: "sha512-256", Entries: len(fam[name])}
+		e.tarMembersKept(c, buildTarSpec(fam[name]))
+	}
+	// without a root member, with --tar-add-root
+	c := &c05Case{Route: "tar-members-add-root", Digest: "sha512-256", Entries: 4}
+	e.tarMembersKept(c, buildTarSpec([]tarMember{d("d0/"), f("f1"), f("d0/f0"), f("f2")}), "--tar-add-root")
+}
+
+// routeTarBreadthFirst: the generated tree as a tar stream in breadth-first order (all members of depth 1,
+// then depth 2, ...): valid, but not grouped as soon as two directories have children.
+func (e *c05Env) routeTarBreadthFirst(tree *c05Node, srcDir string, src []*c05Ent) {
+	if !tarRepresentable(src) || len(src) < 4 {
+		return
+	}
+	ents := append([]*c05Ent{}, src...)
+	depth := func(s *c05Ent) int {
+		if s.Rel == "." {
+			return 0
+		}
+		return strings.Count(s.Rel, "/") + 1
+	}
+	for i := 1; i < len(ents); i++ { // stable insertion sort by depth
+		for j := i; j > 0 && depth(ents[j-1]) > depth(ents[j]); j-- {
+			ents[j-1], ents[j] = ents[j], ents[j-1]
+		}
+	}
+	tb, err := buildTar(srcDir, ents)
+	if err != nil {
+		return
+	}
+	c := &c05Case{Tree: tree, Route: "tar-members-breadth-first-tree", Digest: "sha512-256", Entries: len(ents)}
+	e.tarMembersKept(c, tb)
+}
